@@ -53,6 +53,42 @@ def class_table(chars):
         tab[t] = dict(char=c, byte=b, aalpha=bits[20] == "1", aalnum=bits[21] == "1")
     return tab
 
+# ---- the documented character classes, stated independently of chumsky (property C14) ----
+WHITE_SPACE = {9, 10, 11, 12, 13, 32, 133, 160, 5760, 8232, 8233, 8239, 8287, 12288} | set(range(8192, 8203))   # Unicode White_Space (char::is_whitespace)
+NEWLINES = {10, 13, 11, 12, 133, 8232, 8233}          # the documented line terminators (CR LF is the eighth, a sequence)
+def digit_val(t):
+    if 48 <= t <= 57: return t - 48
+    if 97 <= t <= 122: return t - 97 + 10
+    if 65 <= t <= 90: return t - 65 + 10
+    return None
+def expected_class(t):
+    """flag -> bool for the character t, from the property's text: radix-r digits are the ASCII digits/letters below r, ascii idents
+    [A-Za-z_][A-Za-z0-9_]*, unicode idents XID_Start|_ XID_Continue* (Python's identifier rules are XID based), whitespace = White_Space,
+    inline whitespace = space and tab"""
+    c = chr(t)
+    e = dict(ws=t in WHITE_SPACE, iws=t in (32, 9), nl=t in NEWLINES)
+    for r in (2, 8, 10, 16, 36):
+        v = digit_val(t)
+        e["d%d" % r] = v is not None and v < r
+    e["start"] = (c == "_") or c.isidentifier()
+    e["cont"] = ("a" + c).isidentifier()
+    e["aalpha"] = (65 <= t <= 90) or (97 <= t <= 122) or t == 95
+    e["aalnum"] = e["aalpha"] or (48 <= t <= 57)
+    return e
+
+def class_oracle(tab):
+    """(token, kind, flag, got, want) for every character whose classification by chumsky's text::Char differs from the documented class;
+    bytes are held to the char classification on ASCII"""
+    bad = []
+    for t, row in sorted(tab.items()):
+        want = expected_class(t)
+        for f in FLAGS:
+            if row["char"][f] != want[f]: bad.append((t, "char", f, row["char"][f], want[f]))
+            if row["byte"] is not None and t < 128 and row["byte"][f] != want[f]: bad.append((t, "u8", f, row["byte"][f], want[f]))
+        for f in ("aalpha", "aalnum"):
+            if t < 128 and row[f] != want[f]: bad.append((t, "ascii", f, row[f], want[f]))
+    return bad
+
 def cls(tab, kind, flag, chars):
     k = "char" if kind == "str" else "byte"
     return [t for t in chars if tab[t][k] and tab[t][k][flag]]
@@ -125,6 +161,17 @@ def check_c14(pid, tier, seed):
     tab = class_table(chars)
     if len(tab) != len(chars):
         res["build_broken"].append("textharness class table incomplete"); return res
+    # independent oracle on the classes themselves: all of Latin-1 plus the extra characters
+    wide = sorted(set(chars) | set(range(0, 256)) | {5760, 8192, 8202, 8239, 8287, 12288, 8203, 1632, 65296, 42, 64, 96, 91, 123, 47, 58})
+    wtab = class_table(wide)
+    cbad = class_oracle(wtab) if len(wtab) == len(wide) else [(-1, "table", "incomplete", None, None)]
+    res["stats"]["class_entries"] = len(wtab) * (len(FLAGS) * 2 + 2)
+    if cbad:
+        w = cbad[0]
+        res["violations"].append(("oracle", "a character class of text::Char differs from the documented one",
+                                  dict(case=sx(["T", "class", [w[0]]]), token=w[0], impl_kind=w[1], flag=w[2], got=w[3], documented=w[4], n_failures=len(cbad),
+                                       note="text::Char classification vs the documented classes (radix digits, White_Space, the line terminators, [A-Za-z_][A-Za-z0-9_]*, XID_Start/XID_Continue)")))
+        res["stats"]["oracle_failures"] += len(cbad)
     cases = list(text_cases(rng, tier))
     tlines, mlines, meta = [], [], {}
     for cid, kind, p, s in cases:
@@ -167,7 +214,7 @@ def check_c14(pid, tier, seed):
             res["samples"].append(dict(case=sx([cid, kind, p, s]), impl=r, machine=" ".join(mview(mach)), sem=" ".join(mview(semr))))
     res["stats"]["distinct_nontrivial"] = len(seen)
     res["stats"]["tie_failures"] = len(tie_bad)
-    res["stats"]["oracle_failures"] = len(sem_bad) + len(regex_bad)
+    res["stats"]["oracle_failures"] += len(sem_bad) + len(regex_bad)
     # &str vs &[u8] on ASCII text
     sb_bad = []
     for (p, s), d in byinput.items():
